@@ -332,6 +332,56 @@ fn sentence_case(ctx: &Ctx, ch: &mut Ch) -> Outcome {
     })
 }
 
+/// Trees made of one or two operator classes only (application, `* /`, `+ -`, unary minus), nested
+/// to depth 4 with occasional redundant parentheses: the shapes on which association and the
+/// honouring of parentheses depend.
+fn gen_chain(ch: &mut Ch, classes: &[usize], depth: usize) -> S {
+    use crate::sast::Op;
+    let leaf = |ch: &mut Ch| match ch.pick(3) {
+        0 => S::Var("c0".to_owned()),
+        _ => S::Lit(BigInt::from(ch.pick(9))),
+    };
+    if depth == 0 || ch.chance(1, 4) {
+        return leaf(ch);
+    }
+    let class = classes[ch.pick(classes.len())];
+    let a = gen_chain(ch, classes, depth - 1);
+    let b = gen_chain(ch, classes, depth - 1);
+    let node = match class {
+        0 => S::App(Box::new(a), Box::new(b)),
+        1 => S::Bin([Op::Mul, Op::Div][ch.pick(2)], Box::new(a), Box::new(b)),
+        2 => S::Bin([Op::Add, Op::Sub][ch.pick(2)], Box::new(a), Box::new(b)),
+        _ => S::Neg(Box::new(a)),
+    };
+    if ch.chance(1, 6) { S::Paren(Box::new(node)) } else { node }
+}
+
+fn chain_case(ctx: &Ctx, ch: &mut Ch) -> Outcome {
+    let classes: Vec<usize> = match ch.pick(7) {
+        0 => vec![0],
+        1 => vec![1],
+        2 => vec![2],
+        3 => vec![1, 2],
+        4 => vec![0, 1],
+        5 => vec![1, 3],
+        _ => vec![0, 1, 2, 3],
+    };
+    let depth = 2 + ch.pick(3);
+    let s = gen_chain(ch, &classes, depth);
+    let toks = sast::print_tokens(&s);
+    if toks.len() > 90 {
+        return Ok(());
+    }
+    with_grammar(|g| {
+        let v = check_tokens(g, &toks)?;
+        ctx.class("operator-chain sentence parsed to its derivation");
+        if v.nontrivial {
+            ctx.nontrivial(&show(&toks));
+        }
+        Ok(())
+    })
+}
+
 fn mutate(ch: &mut Ch, toks: &[Tok]) -> Vec<Tok> {
     let mut t = toks.to_vec();
     let edits = 1 + ch.pick(2);
@@ -433,7 +483,7 @@ pub fn def(tier: Tier) -> CheckDef {
     CheckDef {
         id: "C07",
         level: "exploration",
-        rule: "all token strings up to a length bound over the 28 token kinds (exhaustive), proptest-generated sentences (random surface trees with every former in every position, printed with minimal and redundant parentheses) and one-or-two-token mutations of them; oracle = chart parser over the productions read from /repo/grammar.y: membership, derivation count <= 1, and equality of gram's tree with the unique derivation (left-associated chains, flattened lets) through a binder-stack comparison; non-trivial = a sentence with operators of >= 2 precedence classes or >= 1 explicit group, or a rejected near-miss; distinct by token text",
+        rule: "all token strings up to a length bound over the 28 token kinds (exhaustive), proptest-generated sentences (random surface trees with every former in every position, printed with minimal and redundant parentheses), operator-chain sentences (trees of one or two operator classes only - application, * /, + -, unary minus - nested to depth 4), and one-or-two-token mutations of sentences; oracle = chart parser over the productions read from /repo/grammar.y: membership, derivation count <= 1, and equality of gram's tree with the unique derivation (left-associated chains, flattened lets) through a binder-stack comparison; non-trivial = a sentence with operators of >= 2 precedence classes or >= 1 explicit group, or a rejected near-miss; distinct by token text",
         assumptions: vec![
             "a parenthesised group directly in the body position of a group is skipped: the property statements do not say whether it joins the enclosing group",
             "left association is applied to un-parenthesised application, * /, and + - chains only, as the header of grammar.y states",
@@ -478,6 +528,15 @@ pub fn def(tier: Tier) -> CheckDef {
                 run: Box::new(|ctx, r| ctx.prop("random-tokens", r, 3000, 40, random_tokens_case)),
                 replay: Some(Box::new(|ctx, inp| match inp {
                     ReplayInput::Choices(c) => random_tokens_case(ctx, &mut Ch::new(c)),
+                    t => replay_text(ctx, t),
+                })),
+            },
+            Part {
+                name: "chains",
+                rounds,
+                run: Box::new(|ctx, r| ctx.prop("chains", r, 1500, 120, chain_case)),
+                replay: Some(Box::new(|ctx, inp| match inp {
+                    ReplayInput::Choices(c) => chain_case(ctx, &mut Ch::new(c)),
                     t => replay_text(ctx, t),
                 })),
             },
